@@ -4,9 +4,11 @@ package main
 
 import (
 	"fmt"
+	"reflect"
 	"sort"
 	"strings"
 	"time"
+	"verif/seqmc"
 
 	"github.com/esimov/gogu/bstree"
 	"github.com/esimov/gogu/cache"
@@ -27,6 +29,8 @@ type conType struct {
 	probe func(inst any) // post-run usability probe (C01)
 	// c01only: a scenario family about several shared instances at once (no single-element alphabet)
 	c01only bool
+	// atMostOnce: methods of which a C02 program contains at most one call
+	atMostOnce map[string]bool
 }
 
 type opSpec struct {
@@ -94,6 +98,16 @@ func conTypes() []*conType {
 				return s
 			}})
 		}
+		t.inits = append(t.inits, initSpec{"large-with-full-backing-array", func() any {
+			s := stack.New[int]()
+			for i := 0; i < 4096; i++ {
+				s.Push(i%2 + 1)
+				if iv := seqmc.Get(s, "items"); i >= 1100 && (!iv.IsValid() || iv.Kind() != reflect.Slice || iv.Len() == iv.Cap()) {
+					break
+				}
+			}
+			return s
+		}})
 		// a non-initial start: a stack that had grown (40 elements) and was popped down to 16 -- its
 		// backing array is four times its length, where shrinking/compaction logic would kick in
 		// a long stack whose only 1 and only 2 sit deep inside (at depths 256 and 512 from either end):
@@ -205,6 +219,18 @@ func conTypes() []*conType {
 					v = 2
 				}
 				q.Enqueue(v)
+			}
+			return q
+		}})
+		// a large queue whose backing array is exactly full (what an implementation does when it has to
+		// grow a big array -- copy outside the lock, switch to another representation -- happens here)
+		t.inits = append(t.inits, initSpec{"large-with-full-backing-array", func() any {
+			q := queue.New[int]()
+			for i := 0; i < 4096; i++ {
+				q.Enqueue(i%2 + 1)
+				if iv := seqmc.Get(q, "items"); i >= 1100 && (!iv.IsValid() || iv.Kind() != reflect.Slice || iv.Len() == iv.Cap()) {
+					break
+				}
 			}
 			return q
 		}})
@@ -475,6 +501,13 @@ func conTypes() []*conType {
 			}
 			return strings.Join(out, ",")
 		}
+		// a prefix query against concurrent Puts (one query per program: the results of two queries go
+		// through the trie's one result queue, which is the caller's to keep apart)
+		t.ops = append(t.ops, opSpec{"StartsWith", "StartsWith(a)+drain", func(i any) string { q, _ := i.(T).StartsWith("a"); return drain(q) }})
+		// a third key under the prefix, so that the set of keys starting with "a" passes through states a
+		// torn query can mix ({ab}, {a,ab}, {a,ab,ac})
+		t.ops = append(t.ops, opSpec{"Put", "Put(ac,1)", func(i any) string { i.(T).Put("ac", 1); return "" }})
+		t.atMostOnce = map[string]bool{"StartsWith": true}
 		t.extra = append(t.extra,
 			opSpec{"Keys", "Keys()+drain", func(i any) string { q, _ := i.(T).Keys(); return drain(q) }},
 			opSpec{"StartsWith", "StartsWith(a)+drain", func(i any) string { q, _ := i.(T).StartsWith("a"); return drain(q) }},
@@ -493,7 +526,7 @@ func conTypes() []*conType {
 		t.final = func(i any) string {
 			tr := i.(T)
 			out := fmt.Sprintf("size=%d:", tr.Size())
-			for _, k := range []string{"a", "ab", "b"} {
+			for _, k := range []string{"a", "ab", "ac", "b"} {
 				v, ok := tr.Get(k)
 				out += fmt.Sprint(k, "=", v, ok, ",")
 			}
